@@ -157,7 +157,7 @@ Qed.
 
 (* ---------- eye ---------- *)
 Lemma mat_new_shape r c (x : A) : shape (mat_new r c x) r c.
-Proof. unfold shape. destruct (mat_new_wf_lemma r c x) as (W & R & C). auto. Qed.
+Proof. unfold shape, wf, mat_new; cbn. now rewrite repeat_length. Qed.
 
 Lemma mat_new_ent r c (x : A) i j : i < r -> j < c -> ent (mat_new r c x) i j = x.
 Proof.
